@@ -515,6 +515,23 @@ pub fn log_cases(thorough: bool) -> Vec<LogCase> {
             }
         }
     }
+    // long logs: n blocks that each end in a t-byte trailer (t = 1..6: too short for a header),
+    // then a tiny last record. Whatever a reader keeps about its position across trailers has n
+    // chances to drift; the last record is smaller than any plausible drift
+    for n in [3usize, 4, 6, 9] {
+        for t in 1..=6usize {
+            for tail in [0usize, 1, 3, 30] {
+                let mut lens = vec![B - H - t; n];
+                lens.push(tail);
+                v.push(LogCase {
+                    lens,
+                    split: if t % 2 == 0 { 0 } else { 4 },
+                    truncations: false,
+                    stop_between_fragments: false,
+                });
+            }
+        }
+    }
     // a record starting at offset 0 that spans blocks (first fragment fills a whole block)
     for l in [B - H + 1, 40_000, 2 * B, 3 * B + 5] {
         v.push(LogCase {
